@@ -171,6 +171,13 @@ pub fn eval(op: &str, a: &[&str]) -> Option<String> {
 }
 
 pub fn gen(ctx: &Ctx, rng: &mut Rng, out: &mut Vec<String>) {
+    // sums along an axis whose lanes (the product of the later axes) are longer than any tile or block and not a multiple of one
+    for (k, (sh, ax)) in [(vec![3usize, 70, 70], 0usize), (vec![2, 4097], 0), (vec![2, 5000], 0), (vec![3, 4100], 0), (vec![2, 3, 1500], 1), (vec![4, 8193], 0), (vec![3, 70, 70], 1)].into_iter().enumerate() {
+        if !ctx.tier_thorough && k >= 4 { continue; }
+        let n: usize = sh.iter().product();
+        let data: Vec<f64> = (0..n).map(|q| ((q * 7 + k) % 13) as f64 + 1.0).collect();
+        out.push(format!("c19.sum\t{}\t{}\t{}", nats(&sh), ax, bits(&data)));
+    }
     gen_hist(rng, if ctx.tier_thorough { 2000 } else { 200 }, out);
     // exhaustive small scope: quick 1-4 axes x lengths 1..3 plus 1-3 axes x 1..4; thorough 1-5 x 1..4 and 1-4 x 1..5
     let mut shp = if ctx.tier_thorough {
